@@ -816,6 +816,10 @@ def build_config(desc: dict, ctx: Ctx) -> TreeConfig:
             userdefs.TaggedEAConfig: userdefs.TaggedEADeme,
             userdefs.TaggedEAConfig2: userdefs.TaggedEADeme2,
         }
+    if desc.get("override_builtin_ea"):
+        from pyhms.config import EALevelConfig as _EAC
+
+        kw.setdefault("config_class_to_deme_class", {})[_EAC] = userdefs.OverridingEADeme
     if not options and not desc.get("explicit_empty_options"):
         return TreeConfig(levels, gsc, sprout, **kw)  # options left to the library's default
     return TreeConfig(levels, gsc, sprout, options=options, **kw)
@@ -896,6 +900,7 @@ def run_case(desc: dict, monitors=(), gsc_cap=30000, run=True) -> Ctx:
                 raise
             except Exception as e:
                 ctx.aborted = ("exception", type(e).__name__, str(e)[:300], traceback.format_exc()[-1500:])
+                ctx.emit("run_raised", ctx.tree, e)
     for w in wlist:
         ctx.warns[f"{w.category.__name__}:{str(w.message)[:60]}"] += 1
     return ctx
